@@ -5,7 +5,8 @@ M/T: spec/AddrPool.tla (count = min(16, 2^(32-m) - 3); addresses pairwise distin
      The lookup half is also an invariant (LookupExact) of Session.tla, model-checked with C04.
 G: drv_pool calls the real init_users() for every host position of /16../30 (thorough; /20../30 quick) and boundary +
    random positions of /8../15, and find_user_by_ip() under generated slot states; the real main() is started with
-   masks 0..33 to observe the range check; the address in the login reply of real sessions is judged by C04's monitor.
+   masks 0..33 to observe the range check; real sessions log in on servers whose tunnel networks make long dotted quads
+   and the address the login reply tells the client is compared with the slot's (Told events); the address in the login reply of real sessions is judged by C04's monitor.
 T: TLC evaluates every recorded call against AddrPool.tla (TraceAddrPool).
 """
 import json
@@ -33,6 +34,63 @@ def range_event(mask):
     return {"e": "Range", "mask": mask, "started": started}
 
 
+NETS = [("10.0.0.1", 27), ("192.168.100.100", 27), ("172.100.200.254", 28), ("100.100.100.129", 25), ("192.168.255.254", 24),
+        ("10.200.100.5", 16), ("203.113.255.250", 29), ("198.151.100.130", 30), ("10.0.0.5", 27), ("250.250.250.250", 26)]
+
+
+def told_events(arg):
+    """Real sessions on servers whose tunnel network makes long dotted quads: every slot logs in and the address the
+    login reply tells the client is compared with the slot's address."""
+    import runs
+    import proto
+    import dnsmsg as D
+    k, (srv, mask) = arg
+    evs = []
+    w = None
+
+    def quad(t):
+        p = t.split(".")
+        if len(p) != 4 or not all(x.isdigit() and str(int(x)) == x and int(x) < 256 for x in p):
+            return []
+        return [int(x) for x in p]
+    try:
+        w = W.World(runs.bdir(), seed=k + 1, tag="tl%d" % k)
+        w.spawn("S", "S", ["-f", "-4", "-P", "pw", "%s/%d" % (srv, mask), "t.example.com"])
+        w.run_until(t=w.now + 1000)
+        got = []
+        for u in range(16):
+            src = ("10.9.2.%d" % (u + 1), 5300 + u)
+            w.endpoints[src] = lambda wd, serial, s, d, data: got.append(data)
+            del got[:]
+            w.send(src, (W.SERVER_IP, 53), D.build_query(100 + u, proto.qname(proto.q_version(u), "t.example.com"), D.T_NULL,
+                                                         edns=False), "peer")
+            w.run_until(t=w.now + 3000)
+            pl = proto.decode_answer(D.parse(got[-1])) if got else None
+            if not pl or pl[:4] != b"VACK" or len(pl) < 9:
+                break
+            seed = int.from_bytes(pl[4:8], "big", signed=True)
+            uid = pl[8]
+            del got[:]
+            w.send(src, (W.SERVER_IP, 53), D.build_query(200 + u, proto.qname(proto.q_login(uid, proto.login_hash(b"pw", seed), u),
+                                                                             "t.example.com"), D.T_NULL, edns=False), "peer")
+            w.run_until(t=w.now + 3000)
+            pl = proto.decode_answer(D.parse(got[-1])) if got else None
+            if not pl:
+                continue
+            f = pl.decode("latin-1").split("-")
+            us = [x for x in w.users() if x["u"] == uid]
+            if len(f) != 4 or not us:
+                continue
+            evs.append({"e": "Told", "srv": quad(srv), "mask": mask, "slot": quad(us[0]["tunip"]), "told": quad(f[1]),
+                        "toldsrv": quad(f[0]), "text": pl.decode("latin-1")})
+    except (W.KernelDied, W.KernelHang):
+        pass
+    finally:
+        if w is not None:
+            w.close()
+    return evs
+
+
 def main(tier):
     chk = vcheck.Check("C18", "exploration", tier)
     seed = vcheck.seed() + 18
@@ -51,7 +109,16 @@ def main(tier):
         for e in rng_evs:
             f.write(json.dumps(e) + "\n")
     files.append(rpath)
-    _, dn = funcs.survey(chk, files, lambda ev: ev.get("e") in ("Pool", "Range") or ev.get("ret", 99) != 99)
+    told = vcheck.parallel(told_events, list(enumerate(NETS)))
+    tpath = os.path.join(vcheck.scratch(), "told-%d.ndjson" % os.getpid())
+    with open(tpath, "w") as f:
+        for evs in told:
+            for e in evs:
+                f.write(json.dumps(e) + "\n")
+    if any(told):
+        files.append(tpath)
+    chk.cov["login_replies_judged"] = sum(len(x) for x in told)
+    _, dn = funcs.survey(chk, files, lambda ev: ev.get("e") in ("Pool", "Range", "Told") or ev.get("ret", 99) != 99)
     out = funcs.judge_files(chk, "TraceAddrPool", "TraceAddrPool.cfg", files, "pool",
                             sigfn=lambda ev: "%s:/%s" % (ev.get("e"), ev.get("mask", "")))
     chk.cov["evaluations"] = out["events"]
